@@ -119,8 +119,9 @@ type GhostAt struct {
 }
 
 type Axiom struct {
-	Name string
-	C    Clause
+	Name  string
+	Proof string // "" = assumed; "natinduct k" / "induct b" / "direct": discharged as an obligation from the axioms declared before it (theoryproof.go)
+	C     Clause
 	Uses []string // spec funcs mentioned (filled lazily)
 }
 
@@ -450,7 +451,11 @@ func parseContracts(srcs []contractSource) (*Contracts, error) {
 				if err != nil {
 					return nil, err
 				}
-				cs.Axioms = append(cs.Axioms, &Axiom{Name: strings.TrimSpace(rest[:j]), C: c})
+				hd := strings.Fields(rest[:j])
+				if len(hd) == 0 {
+					return nil, errf("axiom needs 'name: expr'")
+				}
+				cs.Axioms = append(cs.Axioms, &Axiom{Name: hd[0], Proof: strings.Join(hd[1:], " "), C: c})
 				cur = nil
 			case "ghost":
 				fs := strings.Fields(strings.TrimPrefix(rest, "var"))
